@@ -577,3 +577,359 @@ Qed.
 
 Lemma oracle_holds c : valid c -> known c = 0 -> oracle c (run c) = true.
 Proof. intros _ _. unfold oracle, run. apply oracle_run. exact rel_init. Qed.
+
+(* ================= request ids: buckets, no reuse, provenance of responses ================= *)
+Lemma find_in rid p e : find rid p = Some e -> In (rid, e) p.
+Proof.
+  induction p as [|[r e0] p IH]; [discriminate|]. cbn [find]. destruct (Z.eqb_spec r rid).
+  - intros H; inversion H; subst. left; reflexivity.
+  - intros H. right. apply IH. exact H.
+Qed.
+
+Lemma find_none_iff rid p : find rid p = None <-> ~ In rid (map fst p).
+Proof.
+  induction p as [|[r e0] p IH]; cbn [find map fst In]; [tauto|].
+  destruct (Z.eqb_spec r rid); [split; [discriminate|intros H; exfalso; apply H; left; assumption]|].
+  rewrite IH. tauto.
+Qed.
+
+Lemma remove_incl rid p x : In x (remove rid p) -> In x p.
+Proof.
+  induction p as [|[r e0] p IH]; cbn [remove]; [auto|]. destruct (r =? rid); [intros H; right; exact H|].
+  intros [<-|H]; [left; reflexivity|right; apply IH; exact H].
+Qed.
+
+Lemma update_in rid e' p x : In x (update rid e' p) -> In x p \/ (x = (rid, e') /\ In rid (map fst p)).
+Proof.
+  induction p as [|[r e0] p IH]; cbn [update]; [auto|]. destruct (Z.eqb_spec r rid).
+  - intros [<-|H]; [right; subst; split; [reflexivity|left; reflexivity]|left; right; exact H].
+  - intros [<-|H]; [left; left; reflexivity|]. apply IH in H as [H|[H1 H2]]; [left; right; exact H|right; split; [exact H1|right; exact H2]].
+Qed.
+
+Lemma update_fst rid e' p : map fst (update rid e' p) = map fst p.
+Proof.
+  induction p as [|[r e0] p IH]; [reflexivity|]. cbn [update]. destruct (Z.eqb_spec r rid); cbn [map fst]; [subst; reflexivity|].
+  f_equal. exact IH.
+Qed.
+
+Lemma nodup_fst_filter (f : Z * entry -> bool) p : NoDup (map fst p) -> NoDup (map fst (filter f p)).
+Proof.
+  induction p as [|x p IH]; cbn [map filter]; [auto|]. intros H. inversion H as [|? ? Hn Hd]; subst.
+  destruct (f x); cbn [map]; [|apply IH; exact Hd]. constructor; [|apply IH; exact Hd].
+  intros Hin. apply Hn. apply in_map_iff in Hin as (y & Hy & Hin). apply filter_In in Hin as [Hin _].
+  apply in_map_iff. exists y. split; assumption.
+Qed.
+
+Lemma nodup_fst_remove rid p : NoDup (map fst p) -> NoDup (map fst (remove rid p)).
+Proof.
+  induction p as [|[r e0] p IH]; cbn [map remove fst]; [auto|]. intros H. inversion H as [|? ? Hn Hd]; subst.
+  destruct (r =? rid); [exact Hd|]. cbn [map fst]. constructor; [|apply IH; exact Hd].
+  intros Hin. apply Hn. apply in_map_iff in Hin as (y & Hy & Hin). apply remove_incl in Hin.
+  apply in_map_iff. exists y. split; assumption.
+Qed.
+
+Lemma find_remove_none rid p : NoDup (map fst p) -> find rid (remove rid p) = None.
+Proof.
+  induction p as [|[r e0] p IH]; cbn [map remove fst]; [reflexivity|]. intros H. inversion H as [|? ? Hn Hd]; subst.
+  destruct (Z.eqb_spec r rid).
+  - subst. apply find_none_iff. exact Hn.
+  - cbn [find]. destruct (Z.eqb_spec r rid); [contradiction|]. apply IH. exact Hd.
+Qed.
+
+Lemma find_filter_none rid (f : Z * entry -> bool) p : find rid p = None -> find rid (filter f p) = None.
+Proof.
+  rewrite !find_none_iff. intros H Hin. apply H. apply in_map_iff in Hin as (y & Hy & Hin).
+  apply filter_In in Hin as [Hin _]. apply in_map_iff. exists y. split; assumption.
+Qed.
+
+Lemma find_filter_out rid e (f : Z * entry -> bool) p :
+  NoDup (map fst p) -> In (rid, e) p -> f (rid, e) = false -> find rid (filter f p) = None.
+Proof.
+  intros Hn Hin Hf. apply find_none_iff. intros Hc. apply in_map_iff in Hc as ([r e'] & Hr & Hc). cbn in Hr. subst r.
+  apply filter_In in Hc as [Hc Hfe].
+  assert (e' = e).
+  { clear Hf Hfe. induction p as [|[r e0] p IH]; [destruct Hin|]. cbn [map fst] in Hn. inversion Hn as [|? ? Hn1 Hn2]; subst.
+    destruct Hin as [Hin|Hin]; destruct Hc as [Hc|Hc].
+    - congruence.
+    - inversion Hin; subst. exfalso. apply Hn1. apply in_map_iff. exists (rid, e'). split; [reflexivity|exact Hc].
+    - inversion Hc; subst. exfalso. apply Hn1. apply in_map_iff. exists (rid, e). split; [reflexivity|exact Hin].
+    - apply IH; assumption. }
+  subst. congruence.
+Qed.
+
+Lemma find_app_none rid p id e : find rid p = None -> id <> rid -> find rid (p ++ [(id, e)]) = None.
+Proof.
+  rewrite !find_none_iff, map_app. intros H Hid Hin. apply in_app_or in Hin as [Hin|[Hin|[]]]; [contradiction|].
+  cbn in Hin. contradiction.
+Qed.
+
+Lemma find_update_none rid r e' p : find rid p = None -> find rid (update r e' p) = None.
+Proof. rewrite !find_none_iff, update_fst. auto. Qed.
+
+Lemma find_remove_other rid r p : find rid p = None -> find rid (remove r p) = None.
+Proof.
+  rewrite !find_none_iff. intros H Hin. apply H. apply in_map_iff in Hin as (y & Hy & Hin).
+  apply remove_incl in Hin. apply in_map_iff. exists y. split; assumption.
+Qed.
+
+Lemma ks_unique p x y : NoDup (pend_ks p) -> In x p -> In y p -> e_k (snd x) = e_k (snd y) -> x = y.
+Proof.
+  unfold pend_ks. induction p as [|z p IH]; [intros _ []|]. cbn [map]. intros Hn Hx Hy He.
+  inversion Hn as [|? ? Hn1 Hn2]; subst. destruct Hx as [Hx|Hx]; destruct Hy as [Hy|Hy].
+  - congruence.
+  - subst z. exfalso. apply Hn1. rewrite He. apply in_map_iff. exists y. split; [reflexivity|exact Hy].
+  - subst z. exfalso. apply Hn1. rewrite <- He. apply in_map_iff. exists x. split; [reflexivity|exact Hx].
+  - apply IH; assumption.
+Qed.
+
+Section Facts2.
+  Variable dec : list chunk -> Z + Z.
+  Variable max_inflight max_pending : Z.
+  Notation step := (step dec max_inflight max_pending).
+  Notation exec := (exec dec max_inflight max_pending).
+
+  Definition rid_ok (lid : Z) (x : Z * entry) : Prop :=
+    fst x <= lid /\ Forall (fun c => k_rid c = fst x) (e_chunks (snd x)).
+
+  Record Inv2 (s : st) : Prop := {
+    j_ok : Forall (rid_ok (last_id s)) (pending s);
+    j_nodup : NoDup (map fst (pending s)) }.
+
+  Lemma inv2_init : Inv2 init.
+  Proof. constructor; cbn; constructor. Qed.
+
+  Lemma rid_ok_mono lid lid' p : lid <= lid' -> Forall (rid_ok lid) p -> Forall (rid_ok lid') p.
+  Proof. intros Hl H. eapply Forall_impl; [|exact H]. intros x [A B]. split; [lia|exact B]. Qed.
+
+  Lemma forall_filter {A} (P : A -> Prop) f l : Forall P l -> Forall P (filter f l).
+  Proof. intros H. apply Forall_forall. intros x Hx. apply filter_In in Hx as [Hx _]. rewrite Forall_forall in H. auto. Qed.
+
+  Lemma forall_remove (P : Z * entry -> Prop) rid l : Forall P l -> Forall P (remove rid l).
+  Proof. intros H. apply Forall_forall. intros x Hx. apply remove_incl in Hx. rewrite Forall_forall in H. auto. Qed.
+
+  Lemma nodup_fst_snoc lid p id e : Forall (rid_ok lid) p -> NoDup (map fst p) -> lid < id ->
+    NoDup (map fst (p ++ [(id, e)])).
+  Proof.
+    intros Hok Hn Hid. rewrite map_app. cbn [map fst].
+    induction p as [|x p IH]; cbn [map app]; [repeat constructor; auto|].
+    inversion Hok as [|? ? [Hx _] Hok']; subst. inversion Hn as [|? ? Hn1 Hn2]; subst.
+    constructor; [|apply IH; assumption].
+    intros Hin. apply in_app_or in Hin as [Hin|[Hin|[]]]; [contradiction|]. lia.
+  Qed.
+
+  Lemma step_inv2 s o : Inv2 s -> Inv2 (fst (fst (step s o))).
+  Proof.
+    intros HJ. pose proof HJ as [Hok Hn].
+    assert (Hnil : forall lr id evs, Inv2 (set_closed s lr id evs)) by (intros; constructor; cbn; constructor).
+    destruct o as [t kind| |rid sq kind mid part n| |cls|t|status]; cbn [step].
+    - destruct (closed s); cbn [fst]; constructor; cbn; assumption.
+    - destruct (closed s); [exact HJ|].
+      assert (Hok1 : Forall (rid_ok (last_id s)) (alive (now s) (pending s))) by (apply forall_filter; exact Hok).
+      assert (Hn1 : NoDup (map fst (alive (now s) (pending s)))) by (apply nodup_fst_filter; exact Hn).
+      destruct (max_inflight >? Z.of_nat (length (alive (now s) (pending s)))); [|constructor; cbn; assumption].
+      destruct (queue s) as [|[[k t] kind] q']; [constructor; cbn; assumption|].
+      destruct (kind =? 2); cbn [fst]; [apply Hnil|].
+      constructor; cbn [pending last_id].
+      + destruct (kind =? 1); [apply (rid_ok_mono (last_id s)); [lia|exact Hok1]|].
+        apply Forall_app. split; [apply (rid_ok_mono (last_id s)); [lia|exact Hok1]|].
+        constructor; [|constructor]. split; cbn; [lia|constructor].
+      + destruct (kind =? 1); [exact Hn1|]. apply (nodup_fst_snoc (last_id s)); [exact Hok1|exact Hn1|lia].
+    - destruct (closed s); [exact HJ|].
+      destruct (find rid (pending s)) as [e|] eqn:Ef; [|exact HJ].
+      assert (Hrm : forall lr evs, Inv2 (with_pending s (remove rid (pending s)) lr evs)).
+      { intros. constructor; cbn; [apply forall_remove; exact Hok|apply nodup_fst_remove; exact Hn]. }
+      destruct (kind =? 0) eqn:K0.
+      + destruct ((0 <? max_pending) && (max_pending <? Z.of_nat (length (e_chunks e ++ [mk_chunk rid sq kind mid part n])))); cbn [fst]; [apply Hrm|].
+        constructor; cbn [with_pending pending last_id]; [|rewrite update_fst; exact Hn].
+        apply Forall_forall. intros x Hx. apply update_in in Hx as [Hx|[-> _]].
+        * rewrite Forall_forall in Hok. apply Hok. exact Hx.
+        * apply find_in in Ef. rewrite Forall_forall in Hok. destruct (Hok _ Ef) as [A B]. cbn in A, B.
+          split; cbn [fst snd e_chunks]; [exact A|]. apply Forall_app. split; [exact B|]. constructor; [reflexivity|constructor].
+      + destruct (kind =? 1); [|cbn [fst]; apply Hrm].
+        destruct (C12.Model.receive (last_recv s) chan (map to12 (merge (e_chunks e ++ [mk_chunk rid sq kind mid part n]))));
+          cbn [fst]; try apply Hnil.
+        destruct (dec (merge (e_chunks e ++ [mk_chunk rid sq kind mid part n]))); cbn [fst]; [apply Hrm|apply Hnil].
+    - destruct (closed s); [exact HJ|apply Hnil].
+    - destruct (closed s); [exact HJ|]. destruct (cls =? 0); [exact HJ|apply Hnil].
+    - constructor; cbn; assumption.
+    - destruct (closed s); [exact HJ|apply Hnil].
+  Qed.
+
+  Lemma exec_inv2 ops : forall s, Inv2 s -> Inv2 (exec s ops).
+  Proof.
+    induction ops as [|o ops IH]; intros s HJ; [exact HJ|]. cbn [Model.exec fold_left]. apply IH, step_inv2, HJ.
+  Qed.
+
+  (* ---------- a response reaches only the request whose id its chunks carry ---------- *)
+  Lemma timeouts_tag nw p k t v : In (k, t, v) (timeouts nw p) -> t = 1.
+  Proof. unfold timeouts. intros H. apply in_map_iff in H as (x & Hx & _). inversion Hx. reflexivity. Qed.
+
+  Lemma close_events_tag status drop p q k t v : In (k, t, v) (close_events status drop p q) -> t = 1.
+  Proof.
+    unfold close_events. intros H. apply in_app_or in H as [H|H]; apply in_map_iff in H as (x & Hx & _); inversion Hx; reflexivity.
+  Qed.
+
+  Lemma response_provenance s o k m : Inv2 s -> In (k, 0, m) (snd (step s o)) ->
+    exists rid sq kind mid part n e,
+      o = Chunk rid sq kind mid part n /\ find rid (pending s) = Some e /\ e_k e = k /\
+      let cs := merge (e_chunks e ++ [mk_chunk rid sq kind mid part n]) in
+      dec cs = inl m /\ Forall (fun c => k_rid c = rid) cs.
+  Proof.
+    intros [Hok _] Hin.
+    destruct o as [t kind| |rid sq kind mid part n| |cls|t|status]; cbn [step] in Hin.
+    - destruct (closed s); cbn in Hin; [|destruct Hin]. destruct (negb (kind =? 1)); cbn in Hin; [|destruct Hin].
+      destruct Hin as [Hin|[]]. inversion Hin.
+    - destruct (closed s); [destruct Hin|].
+      destruct (max_inflight >? Z.of_nat (length (alive (now s) (pending s)))); [|cbn in Hin; apply timeouts_tag in Hin; discriminate].
+      destruct (queue s) as [|[[k0 t] kind] q']; [cbn in Hin; apply timeouts_tag in Hin; discriminate|].
+      destruct (kind =? 2); cbn [snd] in Hin; [|apply timeouts_tag in Hin; discriminate].
+      apply in_app_or in Hin as [Hin|Hin]; [apply timeouts_tag in Hin|apply close_events_tag in Hin]; discriminate.
+    - destruct (closed s); [destruct Hin|].
+      destruct (find rid (pending s)) as [e|] eqn:Ef; [|destruct Hin].
+      destruct (kind =? 0).
+      { destruct ((0 <? max_pending) && (max_pending <? Z.of_nat (length (e_chunks e ++ [mk_chunk rid sq kind mid part n]))));
+          cbn in Hin; [destruct Hin as [Hin|[]]; inversion Hin|destruct Hin]. }
+      destruct (kind =? 1); [|cbn in Hin; destruct Hin as [Hin|[]]; inversion Hin].
+      destruct (C12.Model.receive (last_recv s) chan (map to12 (merge (e_chunks e ++ [mk_chunk rid sq kind mid part n]))));
+        try (cbn [snd] in Hin; apply close_events_tag in Hin; discriminate).
+      destruct (dec (merge (e_chunks e ++ [mk_chunk rid sq kind mid part n]))) as [m'|st] eqn:Ed;
+        [|cbn [snd] in Hin; apply close_events_tag in Hin; discriminate].
+      cbn in Hin. destruct Hin as [Hin|[]]. inversion Hin; subst.
+      exists rid, sq, kind, mid, part, n, e. repeat split; try assumption; try reflexivity.
+      apply Forall_forall. intros c Hc. apply merge_in in Hc. apply in_app_or in Hc as [Hc|[<-|[]]]; [|reflexivity].
+      apply find_in in Ef. rewrite Forall_forall in Hok. destruct (Hok _ Ef) as [_ B]. rewrite Forall_forall in B. exact (B _ Hc).
+    - destruct (closed s); [destruct Hin|]. cbn [snd] in Hin. apply close_events_tag in Hin. discriminate.
+    - destruct (closed s); [destruct Hin|]. destruct (cls =? 0); [destruct Hin|]. cbn [snd] in Hin. apply close_events_tag in Hin. discriminate.
+    - destruct Hin.
+    - destruct (closed s); [destruct Hin|]. cbn [snd] in Hin. apply close_events_tag in Hin. discriminate.
+  Qed.
+
+  (* ---------- request ids are never reused: an id that is not pending stays not pending ---------- *)
+  Lemma gone_step s o rid : rid <= last_id s -> find rid (pending s) = None ->
+    rid <= last_id (fst (fst (step s o))) /\ find rid (pending (fst (fst (step s o)))) = None.
+  Proof.
+    intros Hl Hf.
+    destruct o as [t kind| |r sq kind mid part n| |cls|t|status]; cbn [step].
+    - destruct (closed s); cbn; auto.
+    - destruct (closed s); [auto|].
+      pose proof (find_filter_none rid (fun x => negb (expired (now s) x)) (pending s) Hf) as Hf1. fold (alive (now s) (pending s)) in Hf1.
+      destruct (max_inflight >? Z.of_nat (length (alive (now s) (pending s)))); [|cbn; auto].
+      destruct (queue s) as [|[[k t] kind] q']; [cbn; auto|].
+      destruct (kind =? 2); cbn [fst set_closed last_id pending find]; [split; [lia|reflexivity]|].
+      split; [lia|]. destruct (kind =? 1); [exact Hf1|]. apply find_app_none; [exact Hf1|lia].
+    - destruct (closed s); [auto|]. destruct (find r (pending s)) as [e|]; [|auto].
+      destruct (kind =? 0).
+      { destruct ((0 <? max_pending) && (max_pending <? Z.of_nat (length (e_chunks e ++ [mk_chunk r sq kind mid part n]))));
+          cbn; split; auto; [apply find_remove_other|apply find_update_none]; exact Hf. }
+      destruct (kind =? 1); [|cbn; split; auto; apply find_remove_other; exact Hf].
+      destruct (C12.Model.receive (last_recv s) chan (map to12 (merge (e_chunks e ++ [mk_chunk r sq kind mid part n]))));
+        try (cbn; split; auto; fail).
+      destruct (dec (merge (e_chunks e ++ [mk_chunk r sq kind mid part n]))); cbn; split; auto. apply find_remove_other; exact Hf.
+    - destruct (closed s); cbn; auto.
+    - destruct (closed s); [auto|]. destruct (cls =? 0); cbn; auto.
+    - cbn; auto.
+    - destruct (closed s); cbn; auto.
+  Qed.
+
+  Lemma gone_stays_gone ops : forall s rid, rid <= last_id s -> find rid (pending s) = None ->
+    find rid (pending (exec s ops)) = None.
+  Proof.
+    induction ops as [|o ops IH]; intros s rid Hl Hf; [exact Hf|]. cbn [Model.exec fold_left].
+    destruct (gone_step s o rid Hl Hf) as [Hl' Hf']. apply IH; assumption.
+  Qed.
+
+  (* ---------- a completed request's id is gone ---------- *)
+  Lemma pend_ks_nodup s : Inv s -> NoDup (pend_ks (pending s)).
+  Proof.
+    intros [Hc _ Hn _]. apply (NoDup_count_occ Z.eq_dec). intros x. specialize (Hc x).
+    rewrite (NoDup_count_occ Z.eq_dec) in Hn. specialize (Hn x). unfold open in Hc. rewrite cnt_app in Hc. lia.
+  Qed.
+
+  Lemma open_lt s k : Inv s -> In k (pend_ks (pending s)) -> k < next_k s.
+  Proof.
+    intros [Hc Hl _ _] Hin. specialize (Hc k). rewrite Forall_forall in Hl. apply Hl.
+    apply (count_occ_In Z.eq_dec). apply (count_occ_In Z.eq_dec) in Hin. unfold open in Hc. rewrite cnt_app in Hc. lia.
+  Qed.
+
+  Lemma completion_removes s o rid e t v : Inv s -> Inv2 s ->
+    In (rid, e) (pending s) -> In (e_k e, t, v) (snd (step s o)) ->
+    rid <= last_id (fst (fst (step s o))) /\ find rid (pending (fst (fst (step s o)))) = None.
+  Proof.
+    intros HI [Hok Hn] Hin Hev. pose proof (pend_ks_nodup s HI) as Hkn.
+    assert (Hrl : rid <= last_id s) by (rewrite Forall_forall in Hok; destruct (Hok _ Hin) as [A _]; exact A).
+    destruct o as [t0 kind| |r sq kind mid part n| |cls|t0|status]; cbn [step] in *.
+    - exfalso. assert (Hlt : e_k e < next_k s).
+      { apply (open_lt s _ HI). unfold pend_ks. apply in_map_iff. exists (rid, e). split; [reflexivity|exact Hin]. }
+      destruct (closed s); cbn in Hev; [|destruct Hev]. destruct (negb (kind =? 1)); cbn in Hev; [|destruct Hev].
+      destruct Hev as [Hev|[]]. inversion Hev. lia.
+    - destruct (closed s); [destruct Hev|].
+      assert (Htev : In (e_k e, t, v) (timeouts (now s) (pending s)) -> find rid (alive (now s) (pending s)) = None).
+      { intros H. unfold timeouts in H. apply in_map_iff in H as (x & Hx & Hxin). apply filter_In in Hxin as [Hxin Hexp].
+        assert (x = (rid, e)) by (apply (ks_unique (pending s)); auto; cbn [snd]; congruence). subst x.
+        apply (find_filter_out rid e); [exact Hn|exact Hin|]. rewrite Hexp. reflexivity. }
+      destruct (max_inflight >? Z.of_nat (length (alive (now s) (pending s)))); [|cbn in *; split; [lia|auto]].
+      destruct (queue s) as [|[[k t1] kind] q']; [cbn in *; split; [lia|auto]|].
+      destruct (kind =? 2); cbn [fst snd set_closed last_id pending find] in *; [split; [lia|reflexivity]|].
+      split; [lia|]. destruct (kind =? 1); [auto|]. apply find_app_none; [auto|lia].
+    - destruct (closed s); [destruct Hev|]. destruct (find r (pending s)) as [e'|] eqn:Ef; [|destruct Hev].
+      assert (Hsame : e_k e' = e_k e -> find rid (remove r (pending s)) = None).
+      { intros Hk. apply find_in in Ef.
+        assert ((r, e') = (rid, e)) by (apply (ks_unique (pending s)); auto). inversion H; subst.
+        apply find_remove_none. exact Hn. }
+      destruct (kind =? 0).
+      { destruct ((0 <? max_pending) && (max_pending <? Z.of_nat (length (e_chunks e' ++ [mk_chunk r sq kind mid part n]))));
+          cbn in *; [|destruct Hev]. destruct Hev as [Hev|[]]. inversion Hev. split; [lia|]. apply Hsame. congruence. }
+      destruct (kind =? 1).
+      2:{ cbn in *. destruct Hev as [Hev|[]]. inversion Hev. split; [lia|]. apply Hsame. congruence. }
+      destruct (C12.Model.receive (last_recv s) chan (map to12 (merge (e_chunks e' ++ [mk_chunk r sq kind mid part n]))));
+        try (cbn; split; [lia|reflexivity]).
+      destruct (dec (merge (e_chunks e' ++ [mk_chunk r sq kind mid part n]))); [|cbn; split; [lia|reflexivity]].
+      cbn in *. destruct Hev as [Hev|[]]. inversion Hev. split; [lia|]. apply Hsame. congruence.
+    - destruct (closed s); [destruct Hev|]. cbn. split; [lia|reflexivity].
+    - destruct (closed s); [destruct Hev|]. destruct (cls =? 0); [destruct Hev|]. cbn. split; [lia|reflexivity].
+    - destruct Hev.
+    - destruct (closed s); [destruct Hev|]. cbn. split; [lia|reflexivity].
+  Qed.
+
+  (* once the request filed under an id has completed - response, timeout, abort, close - every later
+     chunk carrying that id changes nothing and completes nothing, for ever *)
+  Lemma completed_ids_ignored ops1 o ops2 rid e t v :
+    let s := exec init ops1 in
+    In (rid, e) (pending s) -> In (e_k e, t, v) (snd (step s o)) ->
+    let s2 := exec (fst (fst (step s o))) ops2 in
+    forall sq kind mid part n, step s2 (Chunk rid sq kind mid part n) = (s2, -1, []).
+  Proof.
+    intros s Hin Hev s2 sq kind mid part n.
+    pose proof (exec_inv dec max_inflight max_pending ops1 init (inv_init)) as HI.
+    pose proof (exec_inv2 ops1 init inv2_init) as HJ. fold s in HI, HJ.
+    destruct (completion_removes s o rid e t v HI HJ Hin Hev) as [Hl Hf].
+    apply unknown_ignored. apply gone_stays_gone; assumption.
+  Qed.
+
+  (* ---------- BadTimeout from the reaper: exactly the pending requests whose deadline has passed ---------- *)
+  Lemma timeout_iff_deadline s k :
+    In (k, 1, 2) (timeouts (now s) (pending s)) <->
+    exists rid e, In (rid, e) (pending s) /\ e_k e = k /\ e_deadline e <= now s.
+  Proof.
+    unfold timeouts. rewrite in_map_iff. split.
+    - intros ([rid e] & Hx & Hin). apply filter_In in Hin as [Hin Hexp]. inversion Hx; subst.
+      exists rid, e. repeat split; auto. unfold expired in Hexp. cbn in Hexp. apply Z.leb_le. exact Hexp.
+    - intros (rid & e & Hin & <- & Hd). exists (rid, e). split; [reflexivity|]. apply filter_In. split; [exact Hin|].
+      unfold expired. cbn. apply Z.leb_le. exact Hd.
+  Qed.
+
+  Lemma pump_events s : closed s = false ->
+    exists rest, snd (step s Pump) = timeouts (now s) (pending s) ++ rest.
+  Proof.
+    intros Hc. cbn [step]. rewrite Hc.
+    destruct (max_inflight >? Z.of_nat (length (alive (now s) (pending s)))); [|exists []; cbn; rewrite app_nil_r; reflexivity].
+    destruct (queue s) as [|[[k t] kind] q']; [exists []; cbn; rewrite app_nil_r; reflexivity|].
+    destruct (kind =? 2); cbn [snd]; [eexists; reflexivity|exists []; rewrite app_nil_r; reflexivity].
+  Qed.
+End Facts2.
+
+Lemma legacy_merge_panics :
+  Legacy.merge [mk_chunk 1001 4294967294 0 70 0 2; mk_chunk 1001 4294967295 1 70 1 2] = None /\
+  merge [mk_chunk 1001 4294967294 0 70 0 2; mk_chunk 1001 4294967295 1 70 1 2]
+  = [mk_chunk 1001 4294967294 0 70 0 2; mk_chunk 1001 4294967295 1 70 1 2].
+Proof. vm_compute. split; reflexivity. Qed.
